@@ -14,7 +14,7 @@ CLAIMS = {
     "C01": ("Theorem C01_every_history: for EVERY document (well-formed or not — on undecodable parts the specification itself says ReadError, see C08) and EVERY finite sequence of read calls — root fetches, element / key / property / length / string-address calls, on any handle the client was given earlier; revisits, out of order, interleaved across siblings, error-returning calls in between, the root fetched again — the model of provider/src/read.rs + lazy_value_ref.rs answers, call by call, exactly Spec.run: a function of the document bytes and each call's own position and arguments (Spec/Read.lean: positions by the eager walk specPath, values from the headers found there, first-match property lookup, documented error codes). "
             "Built from: an invariant on the lazily parsed tree (Inv: correct partial view of the value at an offset; Done: complete view), node-level refinement from ANY such view (finish_done, arrGet_ok, objGet_ok, objProp_ok — unbounded nesting), handles as paths (inv_path: a valid handle denotes a correct view of the value the eager decoder finds along the same path), updateAt_inv (operating on the node a handle denotes keeps every root a correct view), Ext (every operation only extends the tree: all handles stay valid and keep their shape), nodeOp_ok, the per-entry-point theorems C01_entry_points_equal_spec, and C01_answer_independent_of_history. "
             "Integers below 2^53 are reported exactly. Tie: every read call (root, property by name / interned id, element / key by index, length, string bytes, api-level accessors) is compared with the real provider + api crates on generated raw MessagePack (every marker, non-minimal widths, duplicate keys, sizes crossing 15/16, 31/32, 255/256, 65535/65536, 2^14-1) over histories on all handles issued so far.",
-            TB + "Handles are modelled as (root allocation, path); bump-arena address stability (the Vec pre-sized to the declared length) is not modelled — it is what makes a path a stable address. The history theorem is for scopes that are handles; literal scopes (null, numbers, forged bit patterns) are answered by kind in the model's dispatch and compared by the correspondence run. The specification is the eager walk over headers (Spec/Eager, Spec/Path); its agreement with the tree decoder Model/Doc.decodeAt is exercised by the correspondence run, not proved.",
+            TB + "Handles are modelled as (root allocation, path); bump-arena address stability (the Vec pre-sized to the declared length) is not modelled — it is what makes a path a stable address. Histories include calls whose scope is not a handle (null, boolean, number, error value, forged bit patterns: answered by kind). The specification is the eager walk over headers (Spec/Eager, Spec/Path); its agreement with the tree decoder Model/Doc.decodeAt is exercised by the correspondence run, not proved.",
             "Lean 4 invariant + refinement to an eager specification, lifted to every history, over a hand-written model + differential correspondence over documents x histories", "§4 C01"),
     "C02": ("Kernel-checked theorems: C02_completed_output_is_the_tree (for EVERY value tree of any size/depth whose integers fit 64 bits and lengths fit 32-bit headers: the write calls describing it are all accepted from a fresh writer, end in the completed state with an empty container stack, finalisation returns the bytes, and an independent eager decoder reads those bytes back to exactly that tree with nothing left over), "
             "C02_writes_append_exactly_the_encoding (from any value position, inside any open containers, the calls append the canonical encoding and nothing else), C02_decode_encode (decoder inverts the encoding in any byte context), a rejected call — including a rejected string write with its copy — adds no byte; finalisation hands out bytes only in the completed state. "
@@ -49,7 +49,7 @@ CLAIMS = {
             "Built on the error direction of the reader refinement: finish_fail (when the eager walk cannot decode the rest of a value, finish_processing reports an error and leaves a correct partial view), arrGet_fail / objGet_fail / objProp_err, the total node-level theorems getAtIndex_arr_tot / getAtIndex_obj_tot / getProp_tot, and the handle / context lifting shared with C01. "
             "Corollaries: C08_value_or_error (an answer is the read-error value or the boxed header the sequential decoder reads at that position), C08_strings_inside_input (every reported string — value or key — has offset+length inside the input, in every reachable context), C08_repeat_same_answer, C08_errors_keep_state_sound; header-level: accepted container lengths bounded by remaining bytes, progress, NaN and unsupported markers are read errors. "
             "Tie: the model (which has no crash outcome) is compared with the real provider on random bytes and mutations of valid documents (truncation, flips, length tampering, splices, NaN, non-string keys) under catch_unwind.",
-            TB + "'Never crashes' is a statement about the Rust code (panics, aborts on allocation); the model is total, so that half rests on the correspondence run (panics caught per call) and on the alloc bound theorem. Literal (non-handle) scopes are answered by kind in the model's dispatch and compared by the correspondence run.",
+            TB + "'Never crashes' is a statement about the Rust code (panics, aborts on allocation); the model is total, so that half rests on the correspondence run (panics caught per call) and on the alloc bound theorem.",
             "Lean 4 refinement theorem (both directions) lifted to every history + differential correspondence on malformed inputs", "§4 C08"),
     "C09": ("Theorems at document level: for every value of the write-side family (unit, bool, i32, non-NaN f64, strings, options, vectors, string-keyed maps, any nesting) whose type has no Option directly over a nullable type, deserialising the document its serialisation builds returns the value "
             "(mutual induction over values; uses the exactness of i32 -> f64 -> i32 proved for all |z| < 2^53); the excluded shape is proved to fail (Some(()) -> None, known finding F10); mismatching documents are rejected for every type constructor, wrong lengths for fixed arrays and tuples. "
